@@ -15,7 +15,9 @@ import Mahotas.Proofs.C08TiesMark
 import Mahotas.Proofs.C08TiesDilate
 import Mahotas.Proofs.C08TiesHitmiss
 import Mahotas.Proofs.C08Fast
+import Mahotas.Proofs.C08Rank
 import Mahotas.Properties.C01
+import Mahotas.Properties.C04
 import Mahotas.Properties.C06
 import Mahotas.Properties.C07
 import Mahotas.Properties.C13
@@ -448,60 +450,6 @@ theorem C08_dilate_layout_free (dt : DT) (mA₁ mA₂ mB₁ mB₂ : Int → Int)
     intro res i hi
     rw [readIter_layout_free mA₁ mA₂ vA₁ vA₂ wA₁ wA₂ eA i (List.mem_range.1 hi) 0]
 
-/-- **hitmiss is layout-free (partial).** `hitmiss<T>` reads its input as `input.at_flat(i + delta)` (F8), the template
-through its iterator and `position()` (F7), and computes `delta` and its loop control with `pos_to_flat` /
-`flat_to_pos`, which depend on the dimensions only. *Gap:* that every evaluated `i + delta` is a valid flat index is
-taken as a hypothesis here (it is C10's `C10_hitmiss_in_bounds`, proved there for C10's own transliteration of the
-loop, not re-derived for this value-level one). -/
-theorem C08_hitmiss_layout_free_partial (mA₁ mA₂ mB₁ mB₂ : Int → Int) (vA₁ vA₂ vB₁ vB₂ : View)
-    (wA₁ : vA₁.WF) (wA₂ : vA₂.WF) (wB₁ : vB₁.WF) (wB₂ : vB₂.WF)
-    (hA : SameLogical mA₁ vA₁ mA₂ vA₂) (hB : SameLogical mB₁ vB₁ mB₂ vB₂)
-    (hsafe : ∀ i, i < shapeSize vA₁.shape →
-      C14.hmEvaluated vA₁.shape vB₁.shape (vA₁.flatToPos (i : Int)) = true →
-      ∀ e ∈ hmTable vA₁ mB₁ vB₁, ((i : Int) + e.1).toNat < shapeSize vA₁.shape) :
-    hitmissView mA₁ vA₁ mB₁ vB₁ = hitmissView mA₂ vA₂ mB₂ vB₂ := by
-  have eA := hA.toImg_eq
-  have eB := hB.toImg_eq
-  have htab : hmTable vA₁ mB₁ vB₁ = hmTable vA₂ mB₂ vB₂ := by
-    unfold hmTable
-    rw [← hB.1]
-    apply List.filterMap_congr
-    intro j hj
-    have hj' : j < shapeSize vB₁.shape := List.mem_range.1 hj
-    have hp := position_eq vB₁ wB₁ j hj'
-    have hp2 := position_eq vB₂ wB₂ j (hB.1 ▸ hj')
-    rw [← hB.1] at hp2
-    simp only [readIter_layout_free mB₁ mB₂ vB₁ vB₂ wB₁ wB₂ eB j hj' 0, hp, hp2, View.posToFlat, hA.1]
-  have hf2p : ∀ i : Int, vA₁.flatToPos i = vA₂.flatToPos i := by
-    intro i; simp only [View.flatToPos, hA.1]
-  unfold hitmissView
-  simp only
-  rw [← hA.1]
-  apply pixelLoop_congr
-  intro i hi
-  by_cases hev : C14.hmEvaluated vA₁.shape vB₁.shape (vA₁.flatToPos (i : Int)) = true
-  · have hev2 : C14.hmEvaluated vA₁.shape vB₂.shape (vA₂.flatToPos (i : Int)) = true := by
-      rw [← hf2p, ← hB.1]; exact hev
-    rw [if_pos hev, if_pos hev2, ← htab]
-    have : (hmTable vA₁ mB₁ vB₁).all (fun e => readAtFlat mA₁ vA₁ ((i : Int) + e.1).toNat == e.2) =
-        (hmTable vA₁ mB₁ vB₁).all (fun e => readAtFlat mA₂ vA₂ ((i : Int) + e.1).toNat == e.2) := by
-      have allc : ∀ (l : List (Int × Int)) (p q : Int × Int → Bool), (∀ x ∈ l, p x = q x) →
-          l.all p = l.all q := by
-        intro l p q h
-        induction l with
-        | nil => rfl
-        | cons a t ih =>
-          simp only [List.all_cons]
-          rw [h a (by simp), ih (fun x hx => h x (by simp [hx]))]
-      apply allc
-      intro e he
-      have hlt := hsafe i hi hev e he
-      rw [readAtFlat_logical mA₁ vA₁ wA₁ _ hlt 0, readAtFlat_logical mA₂ vA₂ wA₂ _ (hA.1 ▸ hlt) 0, eA, hA.1]
-    rw [this]
-  · have hev2 : ¬ C14.hmEvaluated vA₁.shape vB₂.shape (vA₂.flatToPos (i : Int)) = true := by
-      rw [← hf2p, ← hB.1]; exact hev
-    rw [if_neg hev, if_neg hev2]
-
 /-- **distance: every line is addressed by its own stride.** `distance.py` (as repaired) runs the exact 1-D pass on
 `(1, n)` views `lines[idx][None, :]` of the work array: the `t`-th element `_distance.dt` reads from the line
 through `p` along `axis` (`f[t*stride]`) is the logical element at `p` with coordinate `axis` replaced by `t`, for all
@@ -555,34 +503,42 @@ theorem C08_defined_everywhere_cwatershed (mS : Int → Int) (vS : View) (mM : I
     (cwatershedView mS vS mM vM mB vB).lines.size = shapeSize vS.shape :=
   modelRun_sized _ _ _ _ _ (modelInit_sized _ _)
 
-/-- **F15, rank_filter (partial).** With `rank` outside `[0, N2)` the native kernel returns at once and *no* cell is
-written (the defect b48a666 repaired by a guard in the wrapper); inside the range every pixel `i` receives
-`nth_element`'s answer for the gathered samples. *Gap:* that this answer exists (`currank <` number of samples, which
-can only fail in `ignore` mode with a footprint that misses the image entirely) is not proved. -/
-theorem C08_defined_everywhere_rank_filter_partial (m : Mode) (rank : Int) (mA : Int → Int) (vA : View)
-    (mB : Int → Int) (vB : View) :
+/-- **F15, rank_filter.** With `rank` outside `[0, N2)` the native kernel returns at once and *no* cell is written
+(the defect b48a666 repaired by a guard in the wrapper). Inside the guard, for every border mode that delivers or
+replaces every sample (nearest, wrap, reflect, mirror, constant) and — in `ignore` mode — for every neighbourhood
+that contains its centre, every cell of the output is written with a defined value (the `nth_element` answer
+`C07.rankAt` of `C08_rankView_eq_C07`): the gathered sample list is never empty, so `currank < n`.
+The hypothesis on `ignore` mode is necessary: see `C08_rank_filter_ignore_stale_witness`. -/
+theorem C08_defined_everywhere_rank_filter (m : Mode) (rank : Int) (mA : Int → Int) (vA : View)
+    (mB : Int → Int) (vB : View) (h : FilterArgs vA vB true) :
     let fv := mkFiltV (fun x => x != 0) vA mB vB m true
     ((rank < 0 ∨ rank ≥ (fv.fi.size : Int)) →
       rankView m rank mA vA mB vB = Array.replicate (shapeSize vA.shape) none) ∧
-    (¬ (rank < 0 ∨ rank ≥ (fv.fi.size : Int)) →
-      (rankView m rank mA vA mB vB).size = shapeSize vA.shape ∧
-      ∀ i, i < shapeSize vA.shape →
-        (rankView m rank mA vA mB vB).getD i none =
-          C07.nthElement (gatherInner m (fv.neigh 0 mA (iterPtr vA i) i))
-            (C07.curRank (gatherInner m (fv.neigh 0 mA (iterPtr vA i) i)).length fv.fi.size rank.toNat)) := by
+    (0 ≤ rank ∧ rank < (fv.fi.size : Int) →
+      (m ≠ .ignore ∨ (logical mB vB).getD (ravelI vB.shape (centreOf vB.shape)) 0 ≠ 0) →
+      (rankView m rank mA vA mB vB).size = shapeSize vA.shape ∧ AllSome (rankView m rank mA vA mB vB)) := by
   intro fv
   constructor
-  · intro h
+  · intro hr
     unfold rankView
     simp only
-    rw [if_pos h]
-  · intro h
-    unfold rankView
-    simp only
-    rw [if_neg h, pixelLoop_eq]
-    refine ⟨by simp, fun i hi => ?_⟩
-    simp [Array.getD_eq_getD_getElem?, hi]
-    rfl
+    rw [if_pos hr]
+  · intro hr hc
+    exact rankView_defined m rank mA vA mB vB h hr hc
+
+/-- **the `ignore`-mode hypothesis of `C08_defined_everywhere_rank_filter` cannot be dropped.** A 1×2 image, the
+neighbourhood `[[1, 0, 0]]` (only the left neighbour, centre not a member), `mode = ignore`, `rank = 0` (inside the
+wrapper's guard `0 ≤ rank < 1`): at pixel 0 every sample is outside the image and dropped, `nth_element` has no
+element to deliver — the model's cell is `none` (the native kernel stores the stale slot `neighbours[0]` of its
+scratch vector there). -/
+theorem C08_rank_filter_ignore_stale_witness :
+    let mA : Int → Int := fun a => [5, 7].getD a.toNat 0
+    let mB : Int → Int := fun a => [1, 0, 0].getD a.toNat 0
+    let vA : View := { base := 0, shape := [1, 2], strides := [2, 1], carray := true }
+    let vB : View := { base := 0, shape := [1, 3], strides := [3, 1], carray := true }
+    (mkFiltV (fun x => x != 0) vA mB vB .ignore true).fi.size = 1 ∧
+    (rankView .ignore 0 mA vA mB vB).toList = [none, some 5] := by
+  decide +kernel
 
 /-! non-vacuity: a reversed, transposed, gapped 3×2×2 view (negative and non-monotone strides, offset
     base) is well-formed; the iterator, `at_flat` and the address map agree on all 12 elements, and it
@@ -882,6 +838,30 @@ theorem C08_center_of_mass_view_correct {α : Type} [Field α] (mA : Int → α)
   exact C13_com_eq vA.shape (logical mA vA) labels
 
 
+/-- **cwatershed is correct for any memory layout** (composition of `C08_cwatershed_layout_free` with C04-T4/T5): for
+every view of the surface, of the markers and of the structuring element, in the label output of the view kernel
+(i) every marker pixel keeps its label, (ii) every labelled pixel is joined to a marker of its own label by
+neighbourhood steps inside the image along which the label is constant, (iii) a pixel no marker can reach is 0 —
+all stated on the logical arrays. -/
+theorem C08_cwatershed_view_correct (mS mM mB : Int → Int) (vS vM vB : View) (wS : vS.WF) (wM : vM.WF) (wB : vB.WF)
+    (hm : vM.shape = vS.shape) (hb : vB.shape.length = vS.shape.length) (p : List Int)
+    (hp : inside vS.shape p = true) :
+    let labels : Img Int := ⟨vS.shape, (cwatershedView mS vS mM vM mB vB).res⟩
+    let offs := C04.offsets vB.shape (logical mB vB).toArray
+    ((toImg mM vM).getD p 0 ≠ 0 → labels.getD p 0 = (toImg mM vM).getD p 0) ∧
+    (labels.getD p 0 ≠ 0 → C04.Joined vS.shape offs (toImg mM vM) (fun r => labels.getD r 0) p) ∧
+    (¬ C04.Reach vS.shape offs (toImg mM vM) p → labels.getD p 0 = 0) := by
+  intro labels offs
+  have e := (C08_cwatershed_layout_free mS mS mM mM mB mB vS vS vM vM vB vB wS wS wM wM wB wB
+    ⟨rfl, fun _ _ => rfl⟩ ⟨rfl, fun _ _ => rfl⟩ ⟨rfl, fun _ _ => rfl⟩).1
+  have hl : labels = C04.modelLabels (toImg mS vS) (toImg mM vM) vB.shape (logical mB vB).toArray := by
+    show (⟨vS.shape, (cwatershedView mS vS mM vM mB vB).res⟩ : Img Int) = _
+    rw [e]; rfl
+  rw [hl]
+  exact ⟨fun hk => C04_markers_keep_labels _ _ _ _ hm hb p hp hk,
+    fun h => C04_regions_connected _ _ _ _ hm hb p hp h,
+    fun h => C04_unreached_zero _ _ _ _ hm hb p hp h⟩
+
 /-- **F15 and value-level tie of the binary fast path.** `fast_binary_dilate_erode_2d` (taken by `py_erode` /
 `py_dilate` for 2-D bool C-arrays) only ever *updates* its output in the row loops (`&=`, `|=`). Started on an output
 nobody has written (`none` everywhere; an update of an unwritten cell leaves it unwritten), for every image shape
@@ -926,3 +906,44 @@ theorem C08_fast_erode_view_correct (mA : Int → Int) (vA : View) (mB : Int →
     rw [map_some_getD _ _ 0 (by rw [hsz]; exact C01.ravelI_lt _ _ hp)]
     congr 1
     exact hspec By Bx hB (by simp [logical_length, hB, shapeSize])
+
+
+/-! non-vacuity (Round 3). (i) The Fortran-ordered 2×2 view of `[[5,9],[3,1]]` and the 1×2 element of the Round-2 example
+    meet the hypotheses of `C08_erodeView_eq_C01`; the right-hand side is the non-trivial array `[4,4,2,0]` of
+    `C01.erodeModel` on the logical arrays. (ii) hitmiss on a 3×3 Fortran-ordered view with a 3×3 template in a
+    *reversed* layout: the centre pixel is evaluated (so the in-bounds argument is exercised: eight `i + delta ≠ i`) and
+    matches. (iii) the binary fast path on a 2×3 C-array with the element `[[1,1]]` (centre set: `std::copy`) and `[[1,0]]`
+    read through negative strides (centre not set: `std::fill_n`): every cell defined, values as C01's row loops. -/
+namespace Mahotas.C08.Example
+theorem fa : FilterArgs vF vB false :=
+  ⟨⟨rfl, by decide⟩, ⟨rfl, by decide⟩, by (unfold View.Pos; decide), by (unfold View.Pos; decide), rfl, fun _ => rfl⟩
+
+example : erodeView (dtU 8) memF vF memB vB =
+      (C01.erodeModel (dtU 8) (toImg memF vF) (C01.support vB.shape (logical memB vB).toArray false)).map some ∧
+    (C01.erodeModel (dtU 8) (toImg memF vF) (C01.support vB.shape (logical memB vB).toArray false)).toList
+      = [4, 4, 2, 0] :=
+  ⟨C08_erodeView_eq_C01 (dtU 8) memF vF memB vB fa, by decide +kernel⟩
+
+def memH : Int → Int := fun a => [1, 0, 1, 0, 1, 0, 1, 1, 0].getD a.toNat 0      -- Fortran order of [[1,0,1],[0,1,1],[1,0,0]]
+def vH : View := { base := 0, shape := [3, 3], strides := [1, 3] }
+def memT : Int → Int := fun a => [0, 0, 1, 1, 1, 0, 1, 0, 1].getD a.toNat 0      -- the template, stored reversed
+def vT : View := { base := 8, shape := [3, 3], strides := [-3, -1] }
+
+example : vH.WF ∧ vT.WF ∧ logical memH vH = [1, 0, 1, 0, 1, 1, 1, 0, 0] ∧ logical memT vT = [1, 0, 1, 0, 1, 1, 1, 0, 0] ∧
+    C14.hmEvaluated vH.shape vT.shape (unravelI vH.shape 4) = true ∧
+    (hitmissView memH vH memT vT).toList = [some 0, some 0, some 0, some 0, some 1, some 0, some 0, some 0, some 0] := by
+  refine ⟨⟨rfl, by decide⟩, ⟨rfl, by decide⟩, by decide +kernel, by decide +kernel, by decide +kernel, by decide +kernel⟩
+
+def memI : Int → Int := fun a => [1, 1, 0, 1, 1, 1].getD a.toNat 0
+def vI : View := { base := 0, shape := [2, 3], strides := [3, 1], carray := true }
+def memE : Int → Int := fun a => [0, 1].getD a.toNat 0                           -- `[[1,0]]` stored reversed
+def vE : View := { base := 1, shape := [1, 2], strides := [-2, -1] }
+
+example : pyErodeView dtBool memI vI memB vB = fastBinaryView true memI vI memB vB ∧
+    (fastBinaryView true memI vI memB vB).toList = [some 1, some 1, some 0, some 1, some 1, some 1] ∧
+    (fastBinaryView false memI vI memB vB).toList = [some 1, some 1, some 0, some 1, some 1, some 1] ∧
+    logical memE vE = [1, 0] ∧
+    (fastBinaryView true memI vI memE vE).toList = [some 1, some 1, some 1, some 1, some 1, some 1] ∧
+    (fastBinaryView false memI vI memE vE).toList = [some 1, some 0, some 0, some 1, some 1, some 0] := by
+  decide +kernel
+end Mahotas.C08.Example
